@@ -3,6 +3,7 @@ package props
 import (
 	"context"
 	"fmt"
+	"net/http"
 	"strings"
 	"time"
 
@@ -19,6 +20,8 @@ import (
 func init() {
 	register(&Scenario{Prop: "C15", Run: runC15, Opts: sim.Options{MaxSteps: 60000, MaxSimTime: 30 * time.Minute}})
 }
+
+type c15ReqKey struct{}
 
 var c15Behaviours = []string{"pass", "modreq", "modres", "short", "fail"}
 
@@ -86,6 +89,7 @@ func runC15(c *Ctx) {
 	c.SetPlan("repeated_option", repeated)
 	traces := map[string][]string{}
 	sessionSeen := map[string]map[string]bool{}
+	ctxSeen := map[string]map[string]bool{}
 	var notifSeen []string
 	add := func(nonce, ev string) {
 		c.mu.Lock()
@@ -100,6 +104,28 @@ func runC15(c *Ctx) {
 			}
 		}
 		return ""
+	}
+	// see records the session and the context value a stage of the chain observes
+	see := func(ctx context.Context, nonce, stage string) {
+		// both public accessors of the session (transport session, client session of the call)
+		var sids []string
+		if se, ok := mcp.GetSessionFromContext(ctx); ok && se != nil {
+			sids = append(sids, se.GetID())
+		}
+		if se := mcp.ClientSessionFromContext(ctx); se != nil {
+			sids = append(sids, se.GetID())
+		}
+		val, _ := ctx.Value(c15ReqKey{}).(string)
+		c.mu.Lock()
+		if sessionSeen[nonce] == nil {
+			sessionSeen[nonce] = map[string]bool{}
+			ctxSeen[nonce] = map[string]bool{}
+		}
+		for _, sid := range sids {
+			sessionSeen[nonce][sid] = true
+		}
+		ctxSeen[nonce][stage+"="+val] = val == nonce
+		c.mu.Unlock()
 	}
 	var mws []mcp.Middleware
 	for i, b := range chain {
@@ -116,16 +142,7 @@ func runC15(c *Ctx) {
 					return next(ctx, req)
 				}
 				add(nonce, fmt.Sprintf("b%d", idx))
-				sid := "<none>"
-				if se, ok := mcp.GetSessionFromContext(ctx); ok && se != nil {
-					sid = se.GetID()
-				}
-				c.mu.Lock()
-				if sessionSeen[nonce] == nil {
-					sessionSeen[nonce] = map[string]bool{}
-				}
-				sessionSeen[nonce][sid] = true
-				c.mu.Unlock()
+				see(ctx, nonce, fmt.Sprintf("b%d", idx))
 				s.Yield("mw")
 				switch b {
 				case "short":
@@ -140,6 +157,7 @@ func runC15(c *Ctx) {
 				}
 				res, err := next(ctx, req)
 				add(nonce, fmt.Sprintf("a%d", idx))
+				see(ctx, nonce, fmt.Sprintf("a%d", idx))
 				if b == "modres" && err == nil {
 					if r, ok := res.(*mcp.CallToolResult); ok && len(r.Content) > 0 {
 						if tc, ok := r.Content[0].(mcp.TextContent); ok {
@@ -164,35 +182,56 @@ func runC15(c *Ctx) {
 		srvOpts = append(srvOpts, mcp.WithMiddleware(mws...))
 		sseOpts = append(sseOpts, mcp.WithSSEMiddleware(mws...))
 	}
+	// the request's own context: the server-side context function copies the X-Req header of the
+	// HTTP request into the context; every stage must see the value of its own request
+	srvOpts = append(srvOpts, mcp.WithHTTPContextFunc(func(ctx context.Context, r *http.Request) context.Context {
+		return context.WithValue(ctx, c15ReqKey{}, r.Header.Get("X-Req"))
+	}))
+	sseOpts = append(sseOpts, mcp.WithSSEContextFunc(func(ctx context.Context, r *http.Request) context.Context {
+		return context.WithValue(ctx, c15ReqKey{}, r.Header.Get("X-Req"))
+	}))
 	w := newWorldOpts(c, mode, "srv", srvOpts, sseOpts)
 	s.Net.Faults = sim.NetFaults{Delay: t.Pick(0, 10)}
 	w.Reg.RegisterTool(mcp.NewTool("t", mcp.WithString("nonce")), func(ctx context.Context, req *mcp.CallToolRequest) (*mcp.CallToolResult, error) {
 		nonce, _ := req.Params.Arguments["nonce"].(string)
 		tag, _ := req.Params.Arguments["tag"].(string)
 		add(nonce, "h")
+		see(ctx, nonce, "h")
 		s.Yield("handler")
 		return &mcp.CallToolResult{Content: []mcp.Content{mcp.NewTextContent("h:" + nonce + ":" + tag)}}, nil
 	})
-	cl := w.newClient()
-	if err := initClient(c, cl); err != nil {
-		s.Violate("C15|init-failed|"+mode, "Initialize failed: %v", err)
-		return
-	}
-	nReq := 1 + t.Draw(3)
+	// one to three clients (sessions), each with its own concurrent requests
+	nClients := 1 + t.Draw(3)
 	type rec struct {
-		nonce string
-		got   string
-		err   error
+		nonce  string
+		client int
+		got    string
+		err    error
 	}
+	var clients []*Client
+	for k := 0; k < nClients; k++ {
+		cl := w.newClient(mcp.WithHTTPBeforeRequest(func(ctx context.Context, req *http.Request) error {
+			if v, ok := ctx.Value(c15ReqKey{}).(string); ok {
+				req.Header.Set("X-Req", v)
+			}
+			return nil
+		}))
+		if err := initClient(c, cl); err != nil {
+			s.Violate("C15|init-failed|"+mode, "Initialize of client %d failed: %v", k, err)
+			return
+		}
+		clients = append(clients, cl)
+	}
+	cl := clients[0]
 	var recs []*rec
 	var tasks []*sim.Task
-	for k := 0; k < nReq; k++ {
-		r := &rec{nonce: c.Nonce("n")}
+	for k, n := 0, nClients+t.Draw(3); k < n; k++ {
+		r := &rec{nonce: c.Nonce("n"), client: k % nClients}
 		recs = append(recs, r)
 		tasks = append(tasks, s.Go(fmt.Sprintf("req%d", k), func() {
-			ctx, cancel := context.WithTimeout(context.Background(), 5*time.Minute)
+			ctx, cancel := context.WithTimeout(context.WithValue(context.Background(), c15ReqKey{}, r.nonce), 5*time.Minute)
 			defer cancel()
-			res, err := cl.API.CallTool(ctx, callToolReq("t", map[string]interface{}{"nonce": r.nonce}))
+			res, err := clients[r.client].API.CallTool(ctx, callToolReq("t", map[string]interface{}{"nonce": r.nonce}))
 			r.err = err
 			if err == nil {
 				r.got = textOf(res)
@@ -227,18 +266,43 @@ func runC15(c *Ctx) {
 		} else if r.got != wantRes {
 			s.Violate("C15|result|"+mode, "chain [%s]: client received %q, the statement requires %q", chainStr, r.got, wantRes)
 		}
-		if cl.Kind == "streamable" && mode == "post-sse" || mode == "json" {
-			sid := cl.HTTP.GetSessionID()
+		if mode == "post-sse" || mode == "json" {
+			sid := clients[r.client].HTTP.GetSessionID()
 			for seen := range sessionSeen[r.nonce] {
 				if seen != sid {
-					s.Violate("C15|session|"+mode, "a middleware saw session %q for a request of session %q", seen, sid)
+					s.Violate("C15|session|"+mode, "a stage of the chain saw session %q for a request of session %q (client %d of %d)", seen, sid, r.client, nClients)
 				}
 			}
+		}
+		if len(sessionSeen[r.nonce]) > 1 {
+			s.Violate("C15|session-changes-within-request|"+mode, "the stages of request %s saw %d different sessions", r.nonce, len(sessionSeen[r.nonce]))
+		}
+		for stage, own := range ctxSeen[r.nonce] {
+			if !own {
+				s.Violate("C15|foreign-context|"+mode, "chain [%s]: stage %s of request %s ran with another request's context value", chainStr, stage, r.nonce)
+			}
+		}
+	}
+	// requests of different sessions never share a session; requests of one session share theirs
+	if mode != "stateless-json" {
+		owner := map[string]int{}
+		for _, r := range recs {
+			for sid := range sessionSeen[r.nonce] {
+				if prev, ok := owner[sid]; ok && prev != r.client {
+					s.Violate("C15|session-shared-between-clients|"+mode, "requests of clients %d and %d were both processed with session %q", prev, r.client, sid)
+				}
+				owner[sid] = r.client
+			}
+		}
+		if nClients > 1 {
+			s.Probe("c15.several_sessions")
 		}
 	}
 	if len(notifSeen) > 0 {
 		s.Violate("C15|notification-in-chain|"+mode, "middlewares were invoked for notifications: %v", notifSeen)
 	}
 	s.Probe(fmt.Sprintf("c15.len%d", len(chain)))
-	cl.API.Close()
+	for _, x := range clients {
+		x.API.Close()
+	}
 }
